@@ -75,7 +75,7 @@ def namespaces(ctx, binary, prefixes=("C02/",), mc=True):
         vlib.tlc(ctx, SPEC, "SnapshotNs", "MCNs_asis.cfg", timeout=300, expect_violation="KnownFollowsLabel", workers=4)
         r2 = vlib.tlc(ctx, SPEC, "SnapshotNs", "MCNs_asis_only.cfg", timeout=3000, expect_violation=False, workers=12, consts=big)
         ctx.log("TLC: the code as it is deviates only by namespaces that stop matching between AddMonitor and StartMonitor (%d distinct states)" % r2["distinct"])
-    behs = gen_ns(ctx, ctx.pick(200, 2400), 45)
+    behs = gen_ns(ctx, ctx.pick(140, 2400), 45)
     cases = [{"steps": b} for b in behs]
     rows = vlib.run_sharded(ctx, binary, cases, lambda i, o: ["-mode", "ns", "-in", i, "-out", o], shards=8, timeout=1800, tag="snapns")
     quiet = 0
